@@ -571,3 +571,15 @@ add('m-c13-container-edge-default', CY, "    def __init__(self, IP, phase_step=1
     "    def __init__(self, IP, phase_step=1.5 * np.pi, phase_edge=np.pi / 13,", 'breaking', ['C13'], 'C13.R3')
 add('m-c13-container-edge-form-benign', CY, "    def __init__(self, IP, phase_step=1.5 * np.pi, phase_edge=np.pi / 12,",
     "    def __init__(self, IP, phase_step=np.pi * 1.5, phase_edge=(1 / 12) * np.pi,", 'benign', ['C12', 'C13'])
+add('m-c15-df-polarity', CY, "            inds = self.get_matching_cycles(conditions) == False  # noqa: E712",
+    "            inds = self.get_matching_cycles(conditions) == True  # noqa: E712", 'breaking', ['C15'], 'C15.R11')
+add('m-c15-df-subset-ignored', CY, "        elif subset:\n            conditions = self.mask_conditions\n", "        elif subset:\n            pass\n",
+    'breaking', ['C15'], 'C15.R11')
+add('m-c15-df-own-conditions', CY, "            inds = self.get_matching_cycles(conditions) == False  # noqa: E712",
+    "            inds = self.get_matching_cycles(self.mask_conditions) == False  # noqa: E712", 'breaking', ['C15'], 'C15.R11')
+add('m-c15-df-invert-benign', CY, "            inds = self.get_matching_cycles(conditions) == False  # noqa: E712",
+    "            inds = ~self.get_matching_cycles(conditions)", 'benign', ['C15'])
+add('m-c15-df-keep-benign', CY, "            inds = self.get_matching_cycles(conditions) == False  # noqa: E712\n            d = d.drop(np.where(inds)[0])\n",
+    "            d = d[self.get_matching_cycles(conditions)]\n", 'benign', ['C15'])
+add('m-c17-record-all-claimants-benign', CY, "        selected.extend(inds[np.where(uni_matches)[0], ii])\n", "        selected.extend(inds[closest_uni_inds, ii])\n",
+    'benign', ['C17'])   # over-recording forgoes matches, the pairing stays one-to-one
